@@ -68,8 +68,21 @@ def _run_one(args):
     contracts, lemmas, bounded, extra, registry = collect(prop)
     try:
         if kind == "contract":
-            c = registry[name]
-            return spec.verify_contract(c, registry, timeout_ms)
+            base, _, idx = name.partition("#")
+            c = registry[base]
+            if idx:
+                import copy as _copy
+                import itertools as _it
+
+                keys = sorted(c.split)
+                combo = list(_it.product(*[c.split[k] for k in keys]))[int(idx)]
+                c = _copy.copy(c)
+                c.fixed = dict(zip(keys, combo))
+            r = spec.verify_contract(c, registry, timeout_ms)
+            r["contract"] = base
+            if idx:
+                r["case"] = {k: repr(v) for k, v in c.fixed.items()}
+            return r
         if kind == "lemma":
             l = [x for x in lemmas if x.name() == name][0]
             return spec.verify_lemma(l, timeout_ms)
@@ -182,7 +195,15 @@ def main(prop: str, tier: str = "quick") -> int:
         print("CHECKER-ERROR property=%s cannot load contracts" % prop)
         traceback.print_exc()
         return 3
-    jobs = [(prop, "contract", c.name(), timeout_ms) for c in contracts]
+    jobs = []
+    for c in contracts:
+        if c.split:
+            import itertools as _it
+
+            ncomb = len(list(_it.product(*[c.split[k] for k in sorted(c.split)])))
+            jobs += [(prop, "contract", f"{c.name()}#{i}", timeout_ms) for i in range(ncomb)]
+        else:
+            jobs.append((prop, "contract", c.name(), timeout_ms))
     jobs += [(prop, "lemma", l.name(), timeout_ms) for l in lemmas]
     jobs += [(prop, "structural", f.__name__, timeout_ms) for f in extra]
     jobs += [(prop, "bounded", f.__name__, timeout_ms) for f in bounded]
@@ -230,7 +251,7 @@ def main(prop: str, tier: str = "quick") -> int:
             opaque[k] += v
         inlined.update(r.get("inlined") or {})
         funcs.append({
-            "qualname": r["target"], "contract": r["contract"], "source_sha": r.get("source_sha"),
+            "qualname": r["target"], "contract": r["contract"], **({"case": r["case"]} if r.get("case") else {}), "source_sha": r.get("source_sha"),
             "paths": r.get("paths"), "obligation_instances": len(r["records"]), "status": r["status"],
             "covers": r.get("covers"), "wall_s": round(r.get("wall_s", 0), 2),
             **({"unsupported": r["unsupported"]} if r.get("unsupported") else {}),
